@@ -748,11 +748,28 @@ void runType(
   est.compute(pts, tree, nrm, curv, rel);
   checkOutputs<PT, D>(c, "compute(points, kdtree, normals, curvatures, reliability)", cl, xs, refs, nrm, &curv, &cnt);
 
-  // rotational equivariance (fresh estimator, rotated cloud)
+  // rotational equivariance, and history independence of the estimator: the SAME estimator object, which has just
+  // processed the original cloud through every overload, now gets the rotated cloud written in place into the SAME
+  // PointSet object (same size, as a scan buffer refilled every frame); its output must equal, bit for bit, that of
+  // a fresh estimator on a separate copy, and must be the rotated normals
   NormalAndCurvatureEstimation<PT> estR(cl.k);
   NormalSet<PT> nrmR(n, PT::Zero());
   std::vector<S> curvR(n, nan), relR(n, nan);
   estR.compute(ptsR, nrmR, curvR, relR);
+  for (size_t i = 0; i < n; ++i) {pts[i] = ptsR[i];}
+  NormalSet<PT> nrmU(n, PT::Zero());
+  std::vector<S> curvU(n, nan), relU(n, nan);
+  est.compute(pts, nrmU, curvU, relU);
+  for (size_t i = 0; i < n; ++i) {
+    bool same = (nrmU[i].array() == nrmR[i].array()).all() &&
+      (curvU[i] == curvR[i] || (std::isnan(curvU[i]) && std::isnan(curvR[i])));
+    if (!same) {
+      c.fail(vf::fmt("%s: estimator reused on a point set refilled in place gives a different result than a fresh estimator at point %zu "
+        "(normal (%.9g,%.9g,..) vs (%.9g,%.9g,..), curvature %.9g vs %.9g): state from the previous cloud leaked",
+        Name<PT>::get(), i, static_cast<double>(nrmU[i][0]), static_cast<double>(nrmU[i][1]), static_cast<double>(nrmR[i][0]),
+        static_cast<double>(nrmR[i][1]), static_cast<double>(curvU[i]), static_cast<double>(curvR[i])));
+    }
+  }
   checkEquivariance<PT, D>(c, cl, R, xs, xr, refs, nrm, curv, nrmR, curvR, cnt);
 }
 
